@@ -316,11 +316,11 @@ func genRequest(r *rand.Rand, o genOpts) *genReq {
 		genLevels(r, mp, ids, method == "aspectEliminationHeuristic", o.profile)
 	}
 	g.M = M{
-		"preferenceFunction":  method,
-		"knownAlternatives":   alts,
-		"choseToMake":         chose,
-		"criteria":            crit,
-		"methodParameters":    mp,
+		"preferenceFunction": method,
+		"knownAlternatives":  alts,
+		"choseToMake":        chose,
+		"criteria":           crit,
+		"methodParameters":   mp,
 	}
 	if r.Intn(8) != 0 {
 		g.M["biasApplyRandomSeed"] = r.Intn(100000) * r.Intn(2)
